@@ -237,8 +237,9 @@ def abstract_state(ps, I, outside_digest, has_args=None, rebase=0):
             complete = complete and (("args.json" in files) == a) and (("options.json" in files) == o)
         vd.append([I("id:" + v["task"]), v["ts"] - rebase, I("d:" + str(v["digest"])), 1 if complete else 0])
     td = [[I("id:" + rel), I("d:" + str(v["digest"]))] for rel, v in sorted(ps["tdirs"].items())]
+    # don't-care entries: archive files, the temporary archive index, the staging directory of restore
     misc_items = [(k, ps["tree"].get(k)) for k in ps["other"] if not re.search(r"\.tar\.gz$", k)
-                  and not k.startswith("version_index_archive")]
+                  and not k.startswith("version_index_archive") and k != "archive-tmp"]
     misc = I("m:" + json.dumps(sorted(
         (k, v, CLI.subtree_digest(ps["tree"], k) if v == "d" else "") for k, v in misc_items)))
     return {"rows": rows, "vdirs": vd, "tdirs": td, "misc": misc, "outside": I("o:" + str(outside_digest))}
@@ -366,6 +367,14 @@ def run_history(scn):
                 shutil.copytree(root, dst, ignore=shutil.ignore_patterns("cond-out", ".ctl"))
                 os.makedirs(os.path.join(dst, ".ctl"))
                 continue
+            if cmd == "roundtrip":
+                src = CLI.project_store(root)
+                dst = CLI.project_store(os.path.join(d, st["project"]))
+                steps.append({"cmd": "roundtrip", "argv": ["(compare)"], "exit": 0, "crashed": False, "stderr_kind": "none",
+                              "stdout": "", "stderr": "", "before": st.get("_src") or src, "after": dst,
+                              "obefore": obefore, "oafter": obefore, "sel": st["sel"], "label": st.get("label"),
+                              "cwd": "", "timeout": False, "error": None, "effects": None, "effect_log": None})
+                continue
             for f in os.listdir(ctl):
                 if f.startswith("exit_"):
                     os.unlink(os.path.join(ctl, f))
@@ -451,6 +460,10 @@ def to_store_trace(hid, scn, hist):
             e["dirty"] = 1 if s.get("dirty") else 0
         elif s["cmd"] == "gcdry":
             e["listed"] = [[I("id:" + str(i)), ts] for i, ts in s["listed"]]
+        elif s["cmd"] == "roundtrip":
+            sel = s["sel"]
+            e["sel"] = {"all": sel.get("task") is None, "task": num.get(sel.get("task"), 0), "latest": bool(sel.get("latest")),
+                        "expectFail": False, "ids": []}
         elif s["cmd"] == "archive":
             sel = s["sel"]
             e["sel"] = {"all": sel.get("task") is None, "task": num.get(sel.get("task"), 0), "latest": bool(sel.get("latest")),
